@@ -45,6 +45,16 @@ class T4CardAdversary(object):
             raise nfc.tag.tt4.Type4TagCommandError(0x6A82)
         return nondet_bytearray(0, None)
 
+    def exchange(self, data, timeout):
+        """the same adversary one layer down, behind ISO-DEP: any response APDU, or a command error"""
+        self.commands = self.commands + 1
+        k = nondet_int(0, 2)
+        if k == 1:
+            raise nfc.tag.tt4.Type4TagCommandError(nfc.tag.TIMEOUT_ERROR)
+        if k == 2:
+            raise nfc.tag.tt4.Type4TagCommandError(nfc.tag.PROTOCOL_ERROR)
+        return nondet_bytearray(0, None)
+
 
 import nfc.tag.tt2
 
@@ -112,3 +122,108 @@ class FelicaLiteModel(object):
         sk = ideal('3des-encrypt', 16, self.ck, bytes(8), rc)
         mac = ideal('mac', 8, self.idblock, sk, rc[0:8], False)
         return bytearray(self.idblock + mac + bytes(8))
+
+
+from specs.ndef_map import t3_view, cut_ok
+
+
+class T3NdefTag(object):
+    """A Type 3 Tag with system code 12FCh as ghost memory `mem` (16 octets per block, block 0 first).
+    Every write command replaces whole blocks atomically; after each one the C02 cut-point condition is an
+    interface obligation, and the C03 frame condition (blocks 0..Nmaxb only) is its precondition."""
+    def __init__(self, mem, nblocks, goal):
+        self.sys = 0x12FC
+        self.mem = mem
+        self.mem0 = mem
+        self.nblocks = nblocks       # physical number of blocks (block 0 .. nblocks-1)
+        self.goal = goal             # ghost: the octets being written
+        self.writes = 0
+
+    def read_from_ndef_service(self, *blocks):
+        first = blocks[0]
+        n = len(blocks)
+        if first < 0 or first + n > self.nblocks:
+            raise nfc.tag.tt3.Type3TagCommandError(0x01A8)
+        return bytearray(self.mem[16 * first:16 * (first + n)])
+
+    def write_to_ndef_service(self, data, *blocks):
+        first = blocks[0]
+        n = len(blocks)
+        require(len(data) == 16 * n, 'write data is 16 octets per block')
+        require(first >= 0 and first + n <= 1 + self.frame_nmaxb(), 'C03: write stays inside blocks 0..Nmaxb')
+        self.mem = self.mem[0:16 * first] + bytes(data) + self.mem[16 * (first + n):]
+        self.writes = self.writes + 1
+        require(cut_ok(t3_view(self.mem), t3_view(self.mem0), self.goal), 'C02: cut after this write command')
+
+    def frame_nmaxb(self):
+        return self.mem0[3] * 256 + self.mem0[4]
+
+
+from specs.ndef_map import t4_view
+
+
+class T4FileCard(object):
+    """A Type 4 Tag (short-APDU card, as every tag object of the library assumes: _extended_length_support is
+    never set) with the NDEF application: a capability container file `cc` (E103h) and one NDEF file whose
+    content is ghost memory `file` (NLEN field + data area, len(file) = maximum file size of the CC).  It sits
+    behind ISO-DEP: exchange() takes the command APDU.  SELECT changes `selected` (0 nothing, 1 CC, 2 NDEF
+    file); READ BINARY returns the addressed octets of the selected file; UPDATE BINARY replaces them
+    atomically.  Well-formed short APDUs, the C03 frame (inside the NDEF file, never the CC), the card's
+    MLc/MLe and the C02 cut-point condition are interface obligations."""
+    def __init__(self, cc, file, nlen_size, mlc, mle, goal, selected=0, check_cut=False):
+        self.check_cut = check_cut
+        self.cc = cc
+        self.selected = selected
+        self.file = file
+        self.file0 = file
+        self.nlen_size = nlen_size
+        self.mlc = mlc
+        self.mle = mle
+        self.goal = goal
+        self.writes = 0
+        self.reads = 0
+
+    def exchange(self, apdu, timeout):
+        require(len(apdu) >= 4, 'command APDU has a header')
+        ins = apdu[1]
+        offset = apdu[2] * 256 + apdu[3]
+        if ins == 0xB0:
+            require(len(apdu) == 5, 'READ BINARY is a case 2 short APDU')
+            le = apdu[4] if apdu[4] > 0 else 256
+            require(le <= self.mle, 'READ BINARY Le within the MLe of the card')
+            self.reads = self.reads + 1
+            if self.selected == 0:
+                return bytearray(b'\x69\x86')
+            f = self.cc if self.selected == 1 else self.file
+            if offset > len(f):
+                return bytearray(b'\x6B\x00')
+            return bytearray(f[offset:offset + le]) + bytearray(b'\x90\x00')
+        if ins == 0xD6:
+            require(len(apdu) >= 6 and apdu[4] >= 1 and len(apdu) == 5 + apdu[4],
+                    'UPDATE BINARY is a case 3 short APDU')
+            data = bytes(apdu[5:])
+            require(self.selected == 2, 'C03: UPDATE BINARY only with the NDEF file selected, never the CC')
+            require(len(data) <= self.mlc, 'UPDATE BINARY data within the MLc of the card')
+            require(offset + len(data) <= len(self.file), 'C03: UPDATE BINARY stays inside the NDEF file')
+            self.file = self.file[0:offset] + data + self.file[offset + len(data):]
+            self.writes = self.writes + 1
+            if self.check_cut:
+                require(cut_ok(t4_view(self.file, self.nlen_size), t4_view(self.file0, self.nlen_size),
+                               self.goal), 'C02: cut after this UPDATE BINARY')
+            return bytearray(b'\x90\x00')
+        if ins == 0xA4:
+            if apdu[2] == 0x04:
+                # SELECT by name: the card has the NDEF application of mapping version 2 and later
+                if len(apdu) >= 12 and apdu[4] == 7 and bytes(apdu[5:12]) == b'\xD2\x76\x00\x00\x85\x01\x01':
+                    self.selected = 0
+                    return bytearray(b'\x90\x00')
+                return bytearray(b'\x6A\x82')
+            if apdu[2] == 0x00 and len(apdu) >= 7 and apdu[4] == 2:
+                if bytes(apdu[5:7]) == b'\xE1\x03':
+                    self.selected = 1
+                    return bytearray(b'\x90\x00')
+                if bytes(apdu[5:7]) == self.cc[9:11]:
+                    self.selected = 2
+                    return bytearray(b'\x90\x00')
+            return bytearray(b'\x6A\x82')
+        return bytearray(b'\x6D\x00')
